@@ -157,9 +157,62 @@ def main(argv):
                         {"cmd": li, "profile": prof, "decrypted": pt.hex()[:400], "scoped_pdu": plain.hex()[:400]},
                         key="ciphertext:" + ("extra-octets" if pt[:len(plain)] == plain else "wrong-plaintext"))
     c.sample({"history": lines_i[0][:200], "out": ro[0][:200]})
+
+    # ---- API level: real sessions, every pair of (auth key type, privacy key type), engine id given and discovered:
+    # each request must decrypt under the key localized by RFC 3414 A.2 (hashlib) and the encrypted reply must be read
+    scs = []
+    for priv, auth in (("des", "md5"), ("aes", "sha1"), ("des", "sha1"), ("aes", "md5")):
+        ks = 16 if auth == "md5" else 20
+        for akt in (0, 1, 2):
+            for pkt in (0, 1, 2):
+                for given in (True, False):
+                    if not thorough and (akt, pkt, given) not in ((0, 0, False), (0, 1, False), (0, 2, False), (1, 0, False), (2, 1, False), (1, 2, True), (2, 0, True), (0, 2, True)):
+                        continue
+                    eng = (b"\x80\x00\x1f\x88" + gen.rbytes(rng, rng.choice([4, 9, 28]), False)).hex()
+                    v3 = {"user": "cuser", "auth": [auth, akt, gen.rbytes(rng, ks if akt else 10, False).hex()],
+                          "priv": [priv, pkt, gen.rbytes(rng, ks if pkt else 11, False).hex()], "engine_id": eng if given else None,
+                          "agent_engine_id": eng, "boots": rng.randrange(2 ** 31), "time": rng.randrange(2 ** 31)}
+                    vb = ber.varbind(ber.enc_oid([1, 3, 6, 1, 2, 1, 1, 5, 0]), ber.enc_value("os", b"secret-reply"))
+                    steps = [{"op": "enter", "default_reply": {"pdu_tag": 0xA8, "mac": "absent", "encrypt": "no", "flags": 0}},
+                             {"op": "get", "args": ["1.3.6.1.2.1.1.5.0"], "replies": [[{"vbs": vb.hex()}]]},
+                             {"op": "get_many", "args": [["1.3.6.1.2.1.1.5.0", "1.3.6.1.2.1.1.6.0"]], "replies": [[{"vbs": vb.hex()}]]}]
+                    scs.append({"version": "v3", "mode": rng.choice(["sync", "async"]), "timeout": 0.3, "v3": v3, "steps": steps})
+    res, log = vf.run_api_worker("C11", {"scenarios": scs, "model_exe": v3exe}, timeout=900)
+    n_api = 0
+    if res is None:
+        c.errors.append("API worker failed: " + log[-1500:])
+    else:
+        for sc, rec in zip(scs, res["records"]):
+            if "driver_error" in rec:
+                c.errors.append("API driver error: " + rec["driver_error"])
+                continue
+            v3 = sc["v3"]
+            label = "%s+%s session, auth key type %d, privacy key type %d, engine id %s" % (v3["auth"][0], v3["priv"][0], v3["auth"][1], v3["priv"][1],
+                                                                                         "given" if v3["engine_id"] else "discovered")
+            n_api += 1
+            c.count(label + v3["agent_engine_id"], True)
+            if rec.get("create_error") or rec["steps"][0]["kind"] != "RET":
+                c.violation(label + ": session / refresh failed: %s" % (rec.get("create_error") or rec["steps"][0].get("exc")),
+                            {"scenario": sc, "outcome": rec["steps"][0] if rec["steps"] else None}, key="api-session-failed")
+                continue
+            for st, out in zip(sc["steps"][1:], rec["steps"][1:]):
+                for q in out["requests"]:
+                    if q.get("decrypt_error") or not q.get("pdu"):
+                        c.violation(label + ": msgData of %s does not decrypt to a scoped PDU under the RFC 3414/3826 key and IV (%s)" % (st["op"], q.get("decrypt_error")),
+                                    {"scenario": dict(sc, steps=[st]), "request": q}, key="api-request-undecryptable")
+                    elif any(bytes.fromhex(q.get("padding", ""))) or len(q.get("padding", "")) // 2 >= (8 if v3["priv"][0] == "des" else 16):
+                        c.violation(label + ": padding after the scoped PDU is %s" % q.get("padding"), {"scenario": dict(sc, steps=[st]), "request": q}, key="api-padding")
+                if out["kind"] != "RET":
+                    c.violation(label + ": the agent's encrypted reply to %s was not read: %s" % (st["op"], out.get("exc")),
+                                {"scenario": dict(sc, steps=[st]), "outcome": out}, key="api-reply-undecryptable")
     return c.finish(
         rule="%d privacy histories (DES and AES-128): 1..7 interleaved encrypts of Get/GetNext/GetBulk scoped PDUs (OIDs of 2..800 arcs, context engine ids "
              "0..32 octets, boots/time up to 2^32-1), decrypts of garbage (wrong sizes, short salts) and decrypts of genuine agent-encrypted "
              "responses, on one key object each; %d ciphertexts decrypted by the reference cipher and compared with the independently encoded "
              "scoped PDU; non-trivial = history of >= 2 operations" % (len(lines_i), len(checks)),
-        extra={"disagreements": dis, "ciphertexts": len(checks)})
+        extra={"disagreements": dis, "ciphertexts": len(checks), "api_sessions": n_api})
+
+
+def api_main(g, job):
+    import scen
+    return scen.api_main_generic(g, job)
